@@ -44,16 +44,37 @@ where
     T: SchemaWrite<DefaultConfig, Src = T> + for<'de> SchemaRead<'de, alpenglow::network::NetworkMessageConfig, Dst = T>,
 {
     fn enc(&self) -> Vec<u8> {
-        wincode::serialize(self).expect("serialize")
+        match wincode::serialize(self) {
+            Ok(b) => b,
+            Err(e) => {
+                ENCODE_FAILURES.lock().unwrap().push(format!("{e:?}"));
+                Vec::new()
+            }
+        }
     }
     fn dec(b: &[u8]) -> Result<Self, String> {
         alpenglow::network::deserialize::<T>(b).map_err(|e| format!("{e:?}"))
     }
 }
 
+/// Serialization errors seen by `Wire::enc` (a message that does not encode yields no bytes).
+static ENCODE_FAILURES: Mutex<Vec<String>> = Mutex::new(Vec::new());
+
 /// Round trip + strictness + stability neighbourhood for one valid message.
 fn exercise<T: Wire>(cx: &Cx, name: &str, m: &T, emitted_by_correct_node: bool, neighbourhood: bool) {
+    let before = ENCODE_FAILURES.lock().unwrap().len();
     let bytes = m.enc();
+    {
+        let f = ENCODE_FAILURES.lock().unwrap();
+        if f.len() > before && bytes.is_empty() {
+            cx.report.violation(
+                format!("C19:valid-message-does-not-encode:{}", name.split('/').next().unwrap_or(name)),
+                format!("{name}: a message a correct node has to send cannot be serialized: {}", f.last().cloned().unwrap_or_default()),
+                json!({"message": name}),
+            );
+            return;
+        }
+    }
     cx.evals.fetch_add(1, Ordering::Relaxed);
     if emitted_by_correct_node {
         let mut ml = cx.max_len.lock().unwrap();
